@@ -708,6 +708,8 @@ def emitted_walk(af):
         lit = int(m["address"])
         if not fits(lit) and lit < 0 and lo == 0:
             return None, f"negative literal {lit} in unsigned {T}"
+        if not fits(lit):
+            return None, f"literal {lit} out of range for {T}"
         v = base + lit
         if not fits(v):
             return None, f"{base} + {lit} overflows {T}"
@@ -763,8 +765,19 @@ def path_key(path):
     return tuple((loose(n), i) for n, i in path)
 
 
+def arith_finding(msg, known):
+    """Class predicates of the recorded internal-type findings (only when impl = model)."""
+    if not known:
+        return None
+    if "literal" in msg:
+        return "F15-negative-literal-in-unsigned-internal-type"
+    if "*" in msg or "overflows" in msg:
+        return "F6c-internal-type-overflow-in-address-arithmetic"
+    return None
+
+
 def check_c04(c, af, a, mf):
-    if c.get("profile") not in ("mixed", "addr") or af.get("outcome") != "ok":
+    if c.get("profile") not in ("mixed", "addr", "addrtype") or af.get("outcome") != "ok":
         return None
     insts = spec_instances(c["adef"])
     if insts is None:
@@ -784,13 +797,25 @@ def check_c04(c, af, a, mf):
         if w is None:
             return {"why": f"accessor chain {g['path']} does not correspond to a declared object instance", "finding": None}
         if "overflow" in g:
-            continue   # C13's concern
+            return {"why": f"accessor chain {g['path']}: {g['overflow']} (no address reaches the interface)",
+                    "finding": arith_finding(g["overflow"], known)}
         if g["value"] != w["address"]:
             return {"why": f"accessor chain {g['path']} computes {g['value']}, the definition gives {w['address']}", "finding": None}
         if g["kind"] != w["kind"]:
             return {"why": f"accessor chain {g['path']} is a {g['kind']}, declared {w['kind']}", "finding": None}
-    # chains below a block whose own base computation overflows the internal type are C13's concern
-    dead = [path_key(g["path"]) for g in got if g["kind"] == "block" and "overflow" in g]
+    for g in got:
+        if g["kind"] == "block" and "overflow" in g:
+            return {"why": f"block accessor chain {g['path']}: {g['overflow']}", "finding": arith_finding(g["overflow"], known)}
+    for g in got:
+        if g["kind"] != "block" and not g.get("cast_ok", True):
+            under_rep_block = any(i is not None for _, i in g["path"][:-1])
+            fid = None
+            if known:
+                fid = "F6a-minmax-ignores-enclosing-block-repeat" if under_rep_block else None
+                if has_block_ref(c["adef"]) and not under_rep_block:
+                    fid = "F6b-minmax-ignores-block-ref-children"
+            return {"why": f"accessor chain {g['path']}: {g['value']} does not fit {g['address_type']}; the cast wraps and the interface gets another address", "finding": fid}
+    dead = []
     missing = [k for k in want if k not in seen and not any(k[:len(d)] == d for d in dead)]
     if missing:
         return {"why": f"declared instance {missing[0]} has no accessor chain", "finding": None}
@@ -892,13 +917,7 @@ def check_c13(c, af, a, mf):
     # accepted: the generated arithmetic never overflows on the way
     for g in (emitted_walk(af) or []):
         if "overflow" in g:
-            fid = None
-            if known:
-                if "negative literal" in g["overflow"]:
-                    fid = "F15-negative-literal-in-unsigned-internal-type"
-                elif "*" in g["overflow"] or "overflows" in g["overflow"]:
-                    fid = "F6c-internal-type-overflow-in-address-arithmetic"
-            return {"why": f"accessor chain {g['path']}: {g['overflow']}", "finding": fid}
+            return {"why": f"accessor chain {g['path']}: {g['overflow']}", "finding": arith_finding(g["overflow"], known)}
         if g["kind"] != "block" and not g.get("cast_ok", True):
             return {"why": f"accessor chain {g['path']}: {g['value']} does not fit {g['address_type']}", "finding": None}
     return None
